@@ -928,7 +928,7 @@ class PortsConc(BaseEngine):
                             f'{stuck} never returned from a non-blocking {curop[stuck[0]]} (run ended: '
                             f'{sched.abort_reason})')
         if sched.abort_reason == 'deadlock' and all(
-                isinstance(t.waiting_on, simsync.SimQueue) for t in sched.threads if t.state_at_abort == 'blocked') \
+                isinstance(t.waiting_on, simsync._Waiter) for t in sched.threads if t.state_at_abort == 'blocked') \
                 and done['senders'] >= n_send and deliverable() == 0:
             # receivers parked in a blocking queue.get() with nothing left to deliver: quiescent
             stats['end:quiescent-blocked-get'] += 1
